@@ -103,6 +103,8 @@ func sliceWithinNewMessage(p *Prog, rel, recv, name string) (bool, string) {
 }
 
 func runC16(p *Prog, r *Report) {
+	completeReadFatal(p, r, "C16.20/complete-read-fatal", func(rel string) bool { return strings.HasPrefix(rel, "transport") })
+	r.Floor("C16.20/complete-read-fatal", "complete_reads.C16.20/complete-read-fatal", 3)
 	r.Describe("C16.1/E6d", "every index/slice/BigEndian access on a []byte path has a sufficient dominating length fact")
 	allow := map[string]string{}
 	for _, a := range [][3]string{{"transport", "conn", "Recv"}, {"transport", "connipc", "Recv"}} {
